@@ -229,20 +229,22 @@ def c27_parse(cmd, case, open_dirs):
             groups[-1].append(t)
         else:
             extra.append(t)
-    binds = []
+    binds, open_modes = [], {}
     for g in groups:
         if g[0] != "B":
             continue
         if len(g) == 2:
             parts = g[1].split(":")
             if len(parts) == 3 and parts[0] in open_dirs:
+                open_modes[parts[0]] = parts[2]
                 parts[2] = "*"
                 g = ["B", ":".join(parts)]
         binds.append(g)
     dup = len(binds) - len({tuple(b) for b in binds})
     prefix = {"rt": cmd[:nrt], "xargs": extra, "binds": sorted([list(b) for b in {tuple(b) for b in binds}]),
               "wd": [g for g in groups if g[0] == "W"], "image": image}
-    return {"prefix": prefix, "argv": argv, "dup_binds": dup, "image_token": cmd[i]}
+    return {"prefix": prefix, "argv": argv, "dup_binds": dup, "image_token": cmd[i],
+            "open_modes": open_modes}
 
 
 def norm_prefix(p):
